@@ -136,12 +136,18 @@ UNARY_FUNS = {'exp': 'E.exp', 'log': 'E.log', 'sqrt': 'E.sqrt', 'tanh': 'E.tanh'
 class Tr:
     """expression translator to a Lean term over a field `F` (structure `E : ExpLog F` supplies exp/log/sqrt)"""
 
-    def __init__(self, env=None, call_hook=None, name_hook=None, elementwise=()):
+    def __init__(self, env=None, call_hook=None, name_hook=None, elementwise=(), syms=None):
         self.env = dict(env or {})
         self.call_hook = call_hook
         self.name_hook = name_hook
+        # element-wise reading table: exact source text of a sub-expression (blanks removed) -> Lean symbol
+        self.syms = {k.replace(' ', ''): v for k, v in (syms or {}).items()}
 
     def tr(self, e):
+        if self.syms:
+            key = ast.unparse(e).replace(' ', '')
+            if key in self.syms and key not in self.env:
+                return self.syms[key]
         try:
             return q_lean(const_value(e), 'F')
         except Untranslatable:
@@ -201,8 +207,12 @@ class Tr:
         raise Untranslatable('expression ' + ast.unparse(e))
 
     def run(self, fn, stop_at_return=True):
-        """symbolically execute the straight-line body of `fn`; returns the returned term (or None)"""
-        for s in fn.body:
+        """symbolically execute the straight-line body of `fn` (a `for` body is read element-wise, i.e.
+        executed once); returns the returned term (or None)"""
+        return self.run_stmts(fn.body)
+
+    def run_stmts(self, stmts):
+        for s in stmts:
             if isinstance(s, ast.Expr):
                 continue
             if isinstance(s, ast.Assign) and len(s.targets) == 1:
@@ -210,9 +220,25 @@ class Tr:
                     self.env[target_key(s.targets[0])] = self.tr(s.value)
                 except Untranslatable:
                     self.env.pop(target_key(s.targets[0]), None)
+            elif isinstance(s, ast.AugAssign):
+                try:
+                    self.env[target_key(s.target)] = self.tr(ast.BinOp(left=s.target, op=s.op, right=s.value))
+                except Untranslatable:
+                    self.env.pop(target_key(s.target), None)
+            elif isinstance(s, ast.For):
+                r = self.run_stmts(s.body)
+                if r is not None:
+                    return r
             elif isinstance(s, ast.Return) and s.value is not None:
                 return self.tr(s.value)
         return None
+
+    def value_of(self, key, what=None):
+        """the term bound to an assignment target after `run`"""
+        key = key.replace(' ', '')
+        if key not in self.env:
+            raise Untranslatable(f'{what or key}: no translatable assignment')
+        return self.env[key]
 
 
 def cmp_guard(test, tr):
@@ -226,6 +252,14 @@ def cmp_guard(test, tr):
         return '(' + j.join(cmp_guard(v, tr) for v in test.values) + ')'
     if isinstance(test, ast.UnaryOp) and isinstance(test.op, ast.Not):
         return f'(¬ {cmp_guard(test.operand, tr)})'
+    if isinstance(test, ast.Call) and (dotted_name(test.func) or '').split('.')[-1] == 'isclose' and len(test.args) == 2:
+        # numpy.isclose(a, b, rtol=1e-5, atol=1e-8):  |a - b| <= atol + rtol * |b|
+        kw = {k.arg: const_value(k.value) for k in test.keywords}
+        if set(kw) - {'rtol', 'atol'}:
+            raise Untranslatable('isclose keywords ' + ast.unparse(test))
+        rtol, atol = kw.get('rtol', Fraction(1, 10 ** 5)), kw.get('atol', Fraction(1, 10 ** 8))
+        a, b = tr.tr(test.args[0]), tr.tr(test.args[1])
+        return f'(max ({a} - {b}) (-({a} - {b})) ≤ {q_lean(atol, "F")} + {q_lean(rtol, "F")} * max {b} (-{b}))'
     raise Untranslatable('guard ' + ast.unparse(test))
 
 
@@ -253,7 +287,8 @@ class Out:
 
     def formula(self, name, fn):
         try:
-            self.formulas.append(fn())
+            r = fn()  # one definition, or a list of definitions
+            self.formulas.extend(r if isinstance(r, list) else [r])
         except Untranslatable as ex:
             self.errors[name] = str(ex)
         except Exception as ex:
@@ -274,11 +309,20 @@ def generate(repo, outdir, write_if_changed):
               'namespace Deeprob.Gen\n\n' + '\n\n'.join(o.consts) + '\n\nend Deeprob.Gen\n')
     formulas = ('/- GENERATED by tools/py2lean.py from the /repo working tree — do not edit. -/\n'
                 'import DeeprobModel.Spec.ExpLog\n'
+                'set_option linter.unusedVariables false\n'
                 'namespace Deeprob.Gen\nvariable {F : Type} [Field F] [LinearOrder F] (E : ExpLog F)\n\n'
                 + '\n\n'.join(o.formulas) + '\n\nend Deeprob.Gen\n')
+    # the same terms once more at the computable carrier `Rat`, without any Mathlib import (the driver
+    # executable links this file); formulas that mention `E.` and Prop-valued guards stay in Formulas.lean only
+    import re
+    rat = [re.sub(r'\bF\b', 'Rat', f) for f in o.formulas if 'E.' not in f and ': Prop' not in f]
+    formulas_rat = ('/- GENERATED by tools/py2lean.py from the /repo working tree — do not edit.\n'
+                    '   Same terms as Formulas.lean, at the carrier `Rat` (no Mathlib). -/\n'
+                    'set_option linter.unusedVariables false\nnamespace Deeprob.GenRat\n\n' + '\n\n'.join(rat) + '\n\nend Deeprob.GenRat\n')
     os.makedirs(outdir, exist_ok=True)
     write_if_changed(os.path.join(outdir, 'Consts.lean'), consts)
     write_if_changed(os.path.join(outdir, 'Formulas.lean'), formulas)
+    write_if_changed(os.path.join(outdir, 'FormulasRat.lean'), formulas_rat)
     return o.errors
 
 
@@ -287,6 +331,15 @@ if __name__ == '__main__':
     here = os.path.dirname(os.path.abspath(__file__))
     sys.path.insert(0, here)
     sys.path.insert(0, os.path.join(os.path.dirname(here)))
-    from harness.common import write_if_changed, LEAN
-    errs = generate(repo, os.path.join(LEAN, 'DeeprobModel', 'Generated'), write_if_changed)
+    try:
+        from harness.common import write_if_changed, LEAN
+    except ImportError:  # stand-alone use outside /verif
+        LEAN = None
+        def write_if_changed(path, text):
+            old = open(path).read() if os.path.exists(path) else None
+            if old != text:
+                with open(path, 'w') as f:
+                    f.write(text)
+    lean = sys.argv[2] if len(sys.argv) > 2 else os.environ.get('DEEPROB_LEAN', LEAN)
+    errs = generate(repo, os.path.join(lean, 'DeeprobModel', 'Generated'), write_if_changed)
     print(errs)
